@@ -447,7 +447,11 @@ func setImports(gocmd string, pi *PkgInfo) error {
 		return err
 	}
 	sort.Strings(rootImports)
-	for _, s := range rootImports {
+	for i, s := range rootImports {
+		if i > 0 && s == rootImports[i-1] {
+			// the same package tagged in more than one file
+			continue
+		}
 		imp, err := getImport(gocmd, s, "")
 		if err != nil {
 			return err
